@@ -16,6 +16,11 @@ import (
 type EnumI int32
 type EnumS string
 
+// EnumAl gives two names to one value (alias names).
+type EnumAl int32
+
+var enumAlMap = map[string]EnumAl{"LOW": 0, "MINIMUM": 0, "HIGH": 1, "MAXIMUM": 1, "MID": 2}
+
 var enumIMap = map[string]EnumI{"ONE": 1, "TWO": 2, "THREE": 3}
 var enumSMap = map[string]EnumS{"RED": "r", "GREEN": "g"}
 
@@ -104,6 +109,7 @@ type PoolEmb struct {
 	PoolA
 	Inner PoolB
 	Color EnumS
+	Level EnumAl
 }
 
 // unions
